@@ -86,3 +86,32 @@ Proof.
   intros H1 H2. rewrite (seq_stop a x force H1). cbn [fst].
   unfold app_start, fail_index. cbn [a_st a_fail]. rewrite H2. reflexivity.
 Qed.
+
+(* dependency recursion (after fix b7945d3): meeting an application that is already being started
+   by a caller is a cycle: ErrApplicationDepends (5), nothing is started, no event *)
+Theorem seq_cycle_detected f specs nd vis a :
+  a_st (get nd a) <> 0 -> mem a vis = true -> start_rec (S f) specs nd vis a = (nd, 5, []).
+Proof.
+  intros H0 Hm. cbn [start_rec].
+  destruct (a_st (get nd a) =? 0) eqn:E; [apply Nat.eqb_eq in E; congruence|].
+  rewrite Hm. reflexivity.
+Qed.
+
+(* an unknown application: ErrApplicationUnknown (4) *)
+Theorem seq_start_unknown f specs nd vis a :
+  a_st (get nd a) = 0 -> start_rec (S f) specs nd vis a = (nd, 4, []).
+Proof. intros H0. cbn [start_rec]. rewrite H0. reflexivity. Qed.
+
+(* cyclic graphs terminate with ErrApplicationDepends and start nothing; an acyclic chain starts the
+   dependencies first (events of app 0 before those of app 1 before app 2) *)
+Example seq_cycle_examples :
+  let self := [mk_aspec 1 1 [0]] in
+  let two := [mk_aspec 1 1 [1]; mk_aspec 1 2 [0]] in
+  let chain := [mk_aspec 1 1 []; mk_aspec 2 1 [0]; mk_aspec 3 2 [1]] in
+  map (fun s => o_ret (snd s)) (seq_run self (init_node self) [OLoad 0; OStart 0]) = [0; 5] /\
+  map (fun s => (o_ret (snd s), o_ev (snd s))) (seq_run two (init_node two) [OLoad 0; OLoad 1; OStart 0; OStart 1])
+    = [(0, [ELoad 0]); (0, [ELoad 1]); (5, []); (5, [])] /\
+  map (fun s => (o_ret (snd s), o_ev (snd s))) (seq_run chain (init_node chain) [OLoad 0; OLoad 1; OLoad 2; OStart 2])
+    = [(0, [ELoad 0]); (0, [ELoad 1]); (0, [ELoad 2]);
+       (0, [EInit 0 0; EStart 0 1; EInit 1 0; EStart 1 2; EInit 2 0; EInit 2 1; EStart 2 3])].
+Proof. vm_compute. repeat split. Qed.
